@@ -187,7 +187,9 @@ func vSound(csv uint32, n int) {
 	version := int32(zzverif.U32("tx_version"))
 	sequence := zzverif.U32("sequence")
 	sp := vNewSpend(&w, e.maker, e.taker, e.hash, version, sequence)
-	if !sp.run(e.ops) {
+	ok := sp.run(e.ops)
+	vNativeEngineCheck(sp, csv, ok) // native only: the model against btcd's txscript.Engine
+	if !ok {
 		zzverif.Reach("C02.spend_rejected")
 		return
 	}
@@ -232,6 +234,7 @@ func H_C02_complete_preimage() {
 	zzverif.Assume(w.hashOK[1]) // oracle: SHA256(preimage) = payment hash
 	sp := vNewSpend(w, e.maker, e.taker, e.hash, int32(zzverif.U32("tx_version")), zzverif.U32("sequence"))
 	ok := sp.run(e.ops)
+	vNativeEngineCheck(sp, e.csv, ok)
 	zzverif.Assert(ok, "C02.complete_preimage_accepted")
 	if ok {
 		vAssertSound(e, sp)
@@ -258,6 +261,7 @@ func H_C02_complete_csv() {
 	zzverif.Assume(sequence&vSeqMask >= e.csv)
 	sp := vNewSpend(w, e.maker, e.taker, e.hash, version, sequence)
 	ok := sp.run(e.ops)
+	vNativeEngineCheck(sp, e.csv, ok)
 	zzverif.Assert(ok, "C02.complete_csv_accepted")
 	if ok {
 		vAssertSound(e, sp)
@@ -279,6 +283,7 @@ func H_C02_complete_coop() {
 	zzverif.Assume(rm) // oracle: the maker's signature is valid
 	sp := vNewSpend(w, e.maker, e.taker, e.hash, int32(zzverif.U32("tx_version")), zzverif.U32("sequence"))
 	ok := sp.run(e.ops)
+	vNativeEngineCheck(sp, e.csv, ok)
 	zzverif.Assert(ok, "C02.complete_coop_accepted")
 	if ok {
 		vAssertSound(e, sp)
